@@ -20,6 +20,37 @@ func Content(r *Rand, class string, w, h, c, p, aux int) []int {
 		for i := range s {
 			s[i] = int(r.U64() & uint64(max))
 		}
+	case "gainmax":
+		// two saturated colours laid out in the sign pattern of ONE equivalent 5/3 analysis
+		// filter (level 1..5, low- or high-pass per axis), so that a single wavelet coefficient
+		// collects nearly the whole L1 gain of its sub-band: the largest coefficient magnitudes a
+		// legal image can produce.  Three components: magenta / green (after the reversible
+		// colour transform both chroma components swing over +-(2^P-1)) or white / black.
+		lvl := 1 + r.Intn(5)
+		for lvl > 1 && (1<<uint(lvl)) > w && (1<<uint(lvl)) > h {
+			lvl--
+		}
+		sx := gainSigns(r, w, lvl, r.Bool())
+		sy := gainSigns(r, h, lvl, r.Bool())
+		white := r.Chance(1, 4)
+		inv := r.Bool()
+		for y := 0; y < h; y++ {
+			for x := 0; x < w; x++ {
+				pos := sx[x]*sy[y] > 0
+				if inv {
+					pos = !pos
+				}
+				for k := 0; k < c; k++ {
+					on := pos
+					if !white && c >= 3 && k%3 == 1 {
+						on = !pos
+					}
+					if on {
+						*at(x, y, k) = max
+					}
+				}
+			}
+		}
 	case "blocks8":
 		// every aligned 8x8 cell entirely 0 or entirely MAXVAL (largest legal DC differences
 		// between neighbouring DCT blocks; flat blocks next to saturated ones)
@@ -442,4 +473,55 @@ func SmallSize(r *Rand, max int) int {
 			return v
 		}
 	}
+}
+
+// gainSigns returns, for a line of n samples, the signs (+1/-1) of the equivalent 1-D 5/3
+// analysis filter of decomposition level lvl (low-pass when !high) centred near the middle of
+// the line; samples outside the filter support get random signs.
+func gainSigns(r *Rand, n, lvl int, high bool) []int {
+	// equivalent low-pass filter of level l as offset -> coefficient, centred on 0
+	low := map[int]float64{0: 1}
+	h0 := map[int]float64{-2: -0.125, -1: 0.25, 0: 0.75, 1: 0.25, 2: -0.125}
+	h1 := map[int]float64{-1: -0.5, 0: 1, 1: -0.5}
+	conv := func(e map[int]float64, f map[int]float64, step int) map[int]float64 {
+		o := map[int]float64{}
+		for j, fj := range f {
+			for k, ek := range e {
+				o[k+step*j] += fj * ek
+			}
+		}
+		return o
+	}
+	var eq map[int]float64
+	centre := 0
+	for l := 1; l <= lvl; l++ {
+		step := 1 << uint(l-1)
+		if l == lvl {
+			if high {
+				eq = conv(low, h1, step)
+				// centred on an odd sample of the level l-1 grid
+				centre = step * (2*((n/step)/4) + 1)
+			} else {
+				eq = conv(low, h0, step)
+				centre = 2 * step * ((n / step) / 4)
+			}
+		} else {
+			low = conv(low, h0, step)
+		}
+	}
+	s := make([]int, n)
+	for i := range s {
+		v, ok := eq[i-centre]
+		switch {
+		case ok && v > 0:
+			s[i] = 1
+		case ok && v < 0:
+			s[i] = -1
+		case r.Bool():
+			s[i] = 1
+		default:
+			s[i] = -1
+		}
+	}
+	return s
 }
